@@ -535,18 +535,32 @@ class ProgGen:
         fv = tuple(n for n, _ in file_lets)
         nrules = rng.choice([1, 1, 2, 2, 3, 4])
         names = ['r%d' % i for i in range(nrules)]
-        if rng.random() < 0.1 and nrules > 1:
+        if rng.random() < self.f.get('dup_names', 0.1) and nrules > 1:
             names[-1] = names[0]          # same name twice
         param_rules = []
-        if self.f['params'] and rng.random() < 0.25:
+        if self.f['params'] and rng.random() < self.f.get('param_rate', 0.25):
             pn = ['p1', 'p2'][:rng.choice([1, 2])]
-            body = {'lets': [], 'cnf': [[('cmp', False, {'some': False, 'parts': [('var', pn[0])]}, rng.choice(BINARY + ['exists']),
-                                          False, None, None)]]}
-            c = body['cnf'][0][0]
-            if c[3] != 'exists':
-                rhs = ('q', {'some': False, 'parts': [('var', pn[-1])]}) if len(pn) > 1 else ('lit', gen_literal(rng))
-                body['cnf'][0][0] = ('cmp', False, c[2], c[3], False, rhs, None)
-            param_rules.append(('chk', pn, body))
+            if fv and rng.random() < self.f.get('param_clash', 0.3):
+                pn[0] = rng.choice(fv)        # a parameter named like a file-level variable: the parameter must win inside the body
+            cnf = []
+            for _ in range(rng.choice([1, 1, 2, 3])):
+                line = []
+                for _ in range(rng.choice([1, 1, 1, 2])):
+                    parts = [('var', rng.choice(pn))]
+                    k = rng.random()
+                    if k < 0.2:
+                        parts.append(('allidx',))
+                    elif k < 0.35:
+                        parts.append(keypart(rng.choice(KEYS)))
+                    op = rng.choice(BINARY + ['exists', 'is_string', 'is_int'])
+                    q = {'some': rng.random() < 0.15, 'parts': parts}
+                    if op in BINARY:
+                        rhs = ('q', {'some': False, 'parts': [('var', pn[-1])]}) if (len(pn) > 1 and rng.random() < 0.4) else ('lit', gen_literal(rng))
+                        line.append(('cmp', False, q, op, rng.random() < 0.15, rhs, ('pb%d' % rng.randrange(30)) if rng.random() < 0.3 else None))
+                    else:
+                        line.append(('cmp', False, q, op, rng.random() < 0.15, None, None))
+                cnf.append(line)
+            param_rules.append(('chk', pn, {'lets': [], 'cnf': cnf}))
         rules = []
         forward = rng.random() < 0.3
         for i, name in enumerate(names):
